@@ -23,6 +23,7 @@ import (
 	"strconv"
 	"strings"
 	"testing"
+	"time"
 
 	api "k8s.io/api/core/v1"
 	networking "k8s.io/api/networking/v1"
@@ -45,12 +46,12 @@ var (
 )
 
 func emit(args, impl string) { fmt.Fprintf(out, "C08 %s => %s\n", args, impl) }
-func stat(k string, n int)  { stats[k] += n }
+func stat(k string, n int)   { stats[k] += n }
 
 const classAnn = "kubernetes.io/ingress.class"
 
 var annTok = []string{"-", "o", "f", "f1", "f2"}
-var clsTok = []string{"-", "o", "f", "d", "d1"}
+var clsTok = []string{"-", "o", "f", "d", "d1", "o1", "f3"}
 var annMain = []string{"-", "o", "f"}
 var clsMain = []string{"-", "o", "f", "d"}
 var cfgTok = []string{"00", "01", "10", "11"}
@@ -76,6 +77,10 @@ func clsValue(t string) *string {
 		s = "cls-ours"
 	case "f":
 		s = "cls-foreign"
+	case "o1":
+		s = "cls-ours-term"
+	case "f3":
+		s = "cls-foreign-term"
 	case "d":
 		s = "missing"
 	case "d1":
@@ -98,11 +103,21 @@ func foreignCtrl() string {
 	return names[foreignCtrlN%len(names)]
 }
 
+var terminating = metav1.NewTime(time.Date(2024, 1, 1, 0, 0, 0, 0, time.UTC))
+
 func classObjs() []client.Object {
 	return []client.Object{
 		&networking.IngressClass{ObjectMeta: metav1.ObjectMeta{Name: "cls-ours", Generation: 1},
 			Spec: networking.IngressClassSpec{Controller: xnsworld.ControllerName}},
 		&networking.IngressClass{ObjectMeta: metav1.ObjectMeta{Name: "cls-foreign", Generation: 1},
+			Spec: networking.IngressClassSpec{Controller: foreignCtrl()}},
+		// classes that are being deleted (foreground deletion / a finalizer of a GitOps tool): they still exist and
+		// still name their controller (after seed C08h)
+		&networking.IngressClass{ObjectMeta: metav1.ObjectMeta{Name: "cls-ours-term", Generation: 1,
+			DeletionTimestamp: &terminating, Finalizers: []string{"example.com/hold"}},
+			Spec: networking.IngressClassSpec{Controller: xnsworld.ControllerName}},
+		&networking.IngressClass{ObjectMeta: metav1.ObjectMeta{Name: "cls-foreign-term", Generation: 1,
+			DeletionTimestamp: &terminating, Finalizers: []string{"example.com/hold"}},
 			Spec: networking.IngressClassSpec{Controller: foreignCtrl()}},
 	}
 }
